@@ -307,6 +307,12 @@ fn empty_match_part(args: &Args, run: &mut Run) -> i32 {
         let empty_in = contexts.iter().find(|c| m.run(c, 0).empty).map(|c| c.to_vec());
         let mut p = PatSpec::regex(LitSpec::str(text.clone()));
         p.allow_greedy = true;
+        // default priority, or an explicit one (the rejection must not depend on it)
+        p.priority = match (shape / 3) % 4 {
+            0 | 1 => None,
+            2 => Some(1 + (*shape as usize % 7)),
+            _ => Some(0),
+        };
         // as the only pattern, next to an unrelated token, or as a skip
         let def = match shape % 3 {
             0 => DefSpec { utf8: *utf8, subpatterns: vec![], skips: vec![], variants: vec![vec![p]] },
@@ -337,6 +343,11 @@ fn empty_match_part(args: &Args, run: &mut Run) -> i32 {
             let ((ast, utf8), shape) = &case;
             let mut p = PatSpec::regex(LitSpec::str(ast.text()));
             p.allow_greedy = true;
+            p.priority = match (shape / 3) % 4 {
+                0 | 1 => None,
+                2 => Some(1 + (*shape as usize % 7)),
+                _ => Some(0),
+            };
             let def = match shape % 3 {
                 0 => DefSpec { utf8: *utf8, subpatterns: vec![], skips: vec![], variants: vec![vec![p]] },
                 1 => DefSpec { utf8: *utf8, subpatterns: vec![], skips: vec![], variants: vec![vec![PatSpec::token(LitSpec::str("\u{3}\u{3}"))], vec![p]] },
